@@ -30,7 +30,11 @@ def make_copy(mutant=None) -> str:
         if s.count(mutant["old"]) != 1:
             shutil.rmtree(d)
             raise SystemExit(f"mutant {mutant['id']}: pattern occurs {s.count(mutant['old'])} times in {mutant['file']}")
-        open(p, "w").write(s.replace(mutant["old"], mutant["new"]))
+        s = s.replace(mutant["old"], mutant["new"])
+        for o, n in mutant.get("extra", []):
+            assert s.count(o) == 1, (mutant["id"], o)
+            s = s.replace(o, n)
+        open(p, "w").write(s)
     return d
 
 
